@@ -92,6 +92,23 @@ def to_statuses(smap):
     return out
 
 
+SWEEP_SET = {'quick': 'one mibdump --build-index run with 60 product modules named on the command line that all hang below a common module named first; the same with --rebuild into a populated destination',
+             'thorough': 'same'}
+
+
+def sweep(tier):
+    out = []
+    for flags in ([], ['--rebuild']):
+        specs = {'AAA-MIB': {'name': 'AAA-MIB', 'imports': [], 'oidparent': None, 'arc': 4242, 'identity': True, 'nobj': 1, 'arcs': [1], 'compliance': False, 'variant': 'ok'}}
+        for i in range(59):
+            n = 'P%02d-MIB' % i
+            specs[n] = {'name': n, 'imports': ['AAA-MIB'], 'oidparent': 'AAA-MIB', 'arc': 100 + i, 'identity': i % 7 == 0, 'nobj': 1, 'arcs': [1], 'compliance': i % 11 == 0, 'variant': 'ok'}
+        b = {'kind': 'mibdump', 'modules': specs, 'requested': ['AAA-MIB'] + sorted(n for n in specs if n != 'AAA-MIB'), 'flags': flags}
+        builds = [b] if not flags else [dict(b, flags=[]), b]
+        out.append({'builds': copy.deepcopy(builds), 'suffix': '.json'})
+    return out
+
+
 def generate(rng, tier):
     names = ['AAA-MIB', 'BBB-MIB', 'CCC-MIB', 'DDD-MIB', 'EEE-MIB']
     suffix = rng.choice(['', '.json', '.json'])
@@ -273,6 +290,7 @@ def run(scn):
                         statuses = {}
                         w.probe('compile-raised-in-c18')
                 before = core.read_bytes(idxfile)
+                dst_before = core.snapshot(dst, with_mtime=True) if b['kind'] == 'mibdump' else None
                 fired_before = len(w.fired_list)
                 try:
                     if b['kind'] == 'mibdump':
@@ -289,6 +307,8 @@ def run(scn):
                             for n, sp in specs.items():
                                 with open(os.path.join(srcd, n), 'w') as f:
                                     f.write(mibgen.render(sp, specs))
+                            for n in os.listdir(srcd):
+                                os.utime(os.path.join(srcd, n), (core.EPOCH0 - 5000, core.EPOCH0 - 5000))     # older than anything this history writes
                         for n, sp in specs.items():
                             if sp.get('variant', 'ok') == 'ok':
                                 truth[n] = set(mibgen.dotted(o) for o in mibgen.defined_oids(sp, specs))
@@ -378,6 +398,21 @@ def run(scn):
                     V('C18.0-package-error', 'fault-free index build failed with %s (build %d)' % (res, i), what='spurious-error')
                     break
                 # update the model
+                if b['kind'] == 'mibdump' and dst_before is not None:
+                    # ground truth that does not depend on what the script did with its status maps: a healthy module whose
+                    # file this very run (re)wrote was compiled in it, so the index this run built lists it
+                    dst_after = core.snapshot(dst, with_mtime=True)
+                    for n in sorted(truth):
+                        fn_ = n + scn.get('suffix', '.json')
+                        if fn_ in dst_after and dst_after.get(fn_) != dst_before.get(fn_):
+                            e = M.setdefault(n, {'oids': set(), 'identity': set(), 'enterprise': set(), 'compliance': set()})
+                            e['oids'].update(truth[n])
+                            if n in truth_meta:
+                                if truth_meta[n].get('identity'):
+                                    e['identity'].add(truth_meta[n]['identity'])
+                                if truth_meta[n].get('enterprise'):
+                                    e['enterprise'].add(truth_meta[n]['enterprise'])
+                            w.probe('mibdump-wrote-module:indexed-by-ground-truth')
                 for m, st in statuses.items():
                     oids = getattr(st, 'oids', None) or ()
                     ident = getattr(st, 'identity', None)
@@ -439,6 +474,7 @@ def run(scn):
                 comp2 = MibCompiler(cs.get_parser(), cs.new_codegen('json'), FileWriter(dst).setOptions(suffix=scn.get('suffix', '')))
                 w.begin_op(i, 'reindex')
                 saved_rate, w.rate = w.rate, None    # the re-index probe is the oracle's, not the scenario's
+                saved_faults, w.faults = w.faults, []
                 try:
                     comp2.buildIndex(statuses)
                     again = core.read_bytes(idxfile)
@@ -457,6 +493,7 @@ def run(scn):
                         raise
                     V('C18.0-package-error', 're-indexing raised %s' % type(e).__name__, what='foreign-reindex')
                 w.rate = saved_rate
+                w.faults = saved_faults
                 w.end_op()
                 prev_doc = doc
         alloids = sorted(set(o for e in M.values() for o in e['oids']))
